@@ -1,6 +1,6 @@
 (* C37: Round state transitions are monotone and never deadlock.
    Only statements; each is closed by [exact] of a lemma in Proof/RoundSM.v. *)
-From ZC Require Import Model.RoundSM Proof.RoundSM.
+From ZC Require Import Model.RoundSM Proof.RoundSM Gen.RoundSections Proof.RoundSections.
 Open Scope Z_scope.
 
 (* The phase only moves forward, except through ResetPhase or a Restart that was accepted, which
@@ -181,3 +181,28 @@ Print Assumptions C37_restart_atomic_keeps_notarized_round.
 Theorem C37_restart_check_then_act_refuted : ra_safe (ra_run 0 [RaCheck; RaNotarize; RaAct]) = false.
 Proof. exact ra_check_then_act_refuted. Qed.
 Print Assumptions C37_restart_check_then_act_refuted.
+
+(* AddVRFShare's test and insert are one step under the mutex: whatever the order in which any
+   number of miners' calls run, at most threshold shares are stored. *)
+Theorem C37_add_vrf_share_atomic_bounded :
+  forall threshold threads,
+    (length (av_shares (av_run threshold (av_atomic_schedule threads))) <= threshold)%nat.
+Proof. exact av_atomic_bounded. Qed.
+Print Assumptions C37_add_vrf_share_atomic_bounded.
+
+(* With the test in an earlier section than the insert two calls pass the test at threshold 1
+   and both insert. *)
+Theorem C37_add_vrf_share_split_refuted :
+  length (av_shares (av_run 1 [AvCheck 0; AvCheck 1; AvInsert 0; AvInsert 1])) = 2%nat.
+Proof. exact av_split_refuted. Qed.
+Print Assumptions C37_add_vrf_share_split_refuted.
+
+(* The source keeps them in one write-locked section (fact regenerated from entity.go every run
+   by the roundsections translator); the same for Restart's test and reset. *)
+Theorem C37_add_vrf_share_is_one_critical_section : rsec_add_vrf_share_atomic = true.
+Proof. exact rsec_add_vrf_share_one_section. Qed.
+Print Assumptions C37_add_vrf_share_is_one_critical_section.
+
+Theorem C37_restart_is_one_critical_section : rsec_restart_atomic = true.
+Proof. exact rsec_restart_one_section. Qed.
+Print Assumptions C37_restart_is_one_critical_section.
